@@ -3,7 +3,7 @@
 # CURRENT tree and confirm that the checks recorded in its meta.json (detected_by) still report a violation.
 # usage: tools/seed_regress.sh [-j N] [seed ids...]      (default: all seeds, 3 at a time)
 # Scratch copies live under /tmp/seedreg.* and are removed as soon as each seed has been evaluated.
-# Output: one line per seed  "<seed> <check> CAUGHT|MISSED|NOAPPLY" and a summary; exit 1 if anything is MISSED.
+# Output: one line per seed  "<seed> <check> CAUGHT|MISSED|NOAPPLY" (or "<seed> - STALE|WITHDRAWN", see meta.json) and a summary; exit 1 if anything is MISSED.
 cd "$(dirname "$0")/.."
 J=3
 if [ "$1" = "-j" ]; then J=$2; shift 2; fi
@@ -15,14 +15,20 @@ one() {
   sid=$1
   d=$OUT/$sid
   mkdir -p $d
-  git -C /repo archive HEAD | tar -x -C $d
-  if ! (cd $d && patch -p1 -s --no-backup-if-mismatch < /verif/seeded/$sid/patch.diff >/dev/null 2>&1); then
-    echo "$sid - NOAPPLY"
+  if python3 -c "import json,sys;sys.exit(0 if json.load(open('/verif/seeded/$sid/meta.json')).get('withdrawn') else 1)"; then
+    echo "$sid - WITHDRAWN"
     rm -rf $d
     return
   fi
-  if python3 -c "import json,sys;sys.exit(0 if json.load(open('/verif/seeded/$sid/meta.json')).get('withdrawn') else 1)"; then
-    echo "$sid - WITHDRAWN"
+  if python3 -c "import json,sys;sys.exit(0 if json.load(open('/verif/seeded/$sid/meta.json')).get('stale') else 1)"; then
+    # (a later repair of the library neutralises this change; see meta.json)
+    echo "$sid - STALE"
+    rm -rf $d
+    return
+  fi
+  git -C /repo archive HEAD | tar -x -C $d
+  if ! (cd $d && patch -p1 -s --no-backup-if-mismatch < /verif/seeded/$sid/patch.diff >/dev/null 2>&1); then
+    echo "$sid - NOAPPLY"
     rm -rf $d
     return
   fi
